@@ -306,7 +306,10 @@ class Ctx:
         self.break_tie('translator', g, status[g])
       if bad_gen:
         self.obligations = [(t, False) for t in thms]
-        return False
+        # the case libraries may not need the untranslatable file: if they build, the correspondence cases still run
+        self.property_ok = False
+        rc2, out2 = make(list(case_libs))
+        return rc2 == 0
       rc, out = make(['Properties/%s.vo' % self.prop] + list(case_libs))
       if rc != 0:
         self.obligations = [(t, False) for t in thms]
